@@ -22,14 +22,13 @@ for name, lst in json.load(open(openf)).items():
             if not cex:
                 continue
             lits = sorted(cex["pre"].items())
-            for a in lits:
-                k = clause_key((a,))
-                if k in uni:
-                    cands.add(k)
             for a, b in itertools.combinations(lits, 2):
                 for k in (clause_key((a, b)), clause_key((b, a))):
                     if k in uni:
                         cands.add(k)
+for extra in [a for a in sys.argv[4:] if os.path.exists(a)]:       # further invariant files: their entry clauses are candidates too
+    cands |= set(json.load(open(extra))["inv"]["entry"]) & uni
+only = os.environ.get("VERIF_STRENGTHEN_ONLY")
 cands -= have
 print("candidates from CTIs:", len(cands), flush=True)
 ok = set(mrun.initial_clauses(eng, sorted(cands)))
